@@ -2,6 +2,7 @@
 (* Judge of event files recorded from real daemon.Launch runs (harness/cmd/daemonh).  Events of all
    processes are lines appended to one O_APPEND file, so the file order is a total order:
      begin(name, k)              the caller calls Launch(name) (k-th concurrent call)
+     started(name, pid)          the handler `name` began to run in the daemon process
      marker(name, pid, ppid)     the daemon running handler `name` did its pre-Done work
      donebegin(pid) / doneend(pid)   the daemon calls / has returned from Done()
      ret(name, k, pid, ok)       Launch returned (ok = nil error)
@@ -15,25 +16,29 @@ VARIABLE i
 Init == i \in 1..Len(Cases)
 Next == UNCHANGED i
 
-RECURSIVE Fold(_, _, _, _)
-\* marked: set of <<name, pid>> with the marker written; done: pids whose Done() began
-Fold(evs, k, marked, done) ==
+RECURSIVE Fold(_, _, _, _, _)
+\* marked: set of <<name, pid>> with the marker written; done: pids whose Done() began;
+\* begun: names whose handler has started running (the harness' handlers always go on to call Done(), however late)
+Fold(evs, k, marked, done, begun) ==
   IF k > Len(evs) THEN <<0, "">>
   ELSE LET e == evs[k] IN
-  CASE e.e = "marker" -> Fold(evs, k + 1, marked \cup {<<e.name, e.pid>>}, done)
-    [] e.e = "donebegin" -> Fold(evs, k + 1, marked, done \cup {e.pid})
+  CASE e.e = "marker" -> Fold(evs, k + 1, marked \cup {<<e.name, e.pid>>}, done, begun)
+    [] e.e = "started" -> Fold(evs, k + 1, marked, done, begun \cup {e.name})
+    [] e.e = "donebegin" -> Fold(evs, k + 1, marked, done \cup {e.pid}, begun)
     [] e.e = "ret" ->
          IF ~e.ok /\ \E m \in marked : m[1] = e.name /\ m[2] \in done
             THEN <<k, "Launch returned an error although the daemon started up and called Done()">>
+         ELSE IF ~e.ok /\ e.name \in begun
+            THEN <<k, "Launch returned an error although the handler had started up and was on its way to Done() (however slowly)">>
          ELSE IF e.ok /\ e.pid \notin done THEN <<k, "Launch returned before the daemon with the returned pid called Done()">>
          ELSE IF e.ok /\ <<e.name, e.pid>> \notin marked THEN <<k, "Launch returned a pid that is not the process running the handler of that name">>
-         ELSE Fold(evs, k + 1, marked, done)
+         ELSE Fold(evs, k + 1, marked, done, begun)
     [] e.e = "obs" ->
          IF ~e.alive THEN <<k, "the daemon is not running after Launch returned and the caller exited">>
          ELSE IF e.ppid = e.callerpid THEN <<k, "the daemon is still a child of the caller">>
          ELSE IF ~e.launchergone THEN <<k, "the intermediate launcher is still there">>
-         ELSE Fold(evs, k + 1, marked, done)
+         ELSE Fold(evs, k + 1, marked, done, begun)
     [] e.e = "hang" -> <<k, "Launch did not return although the daemon called Done()">>
-    [] OTHER -> Fold(evs, k + 1, marked, done)
-JudgeOK == LET r == Fold(Cases[i].evs, 1, {}, {}) IN r[1] = 0 \/ PrintT(<<"BAD", i, r[1], r[2]>>)
+    [] OTHER -> Fold(evs, k + 1, marked, done, begun)
+JudgeOK == LET r == Fold(Cases[i].evs, 1, {}, {}, {}) IN r[1] = 0 \/ PrintT(<<"BAD", i, r[1], r[2]>>)
 =============================================================================
